@@ -198,9 +198,15 @@ func runC06(c *mon.Ctx) {
 		}
 	}
 	// top level
+	big := make([]byte, 0, 1<<20)
 	bombs(func(d string, raw []byte) {
 		m.run("cbor", "length-bomb:top-level", raw)
 		m.run("cose", "length-bomb:top-level", raw)
+		// the same bytes as a slice of a large receive buffer (len << cap)
+		inbuf := append(big[:0], raw...)
+		m.run("cbor", "length-bomb:top-level:spare-capacity", inbuf)
+		// and behind a declared-but-empty tag / inside a one-entry map
+		m.run("cbor", "length-bomb:top-level:spare-capacity", append(append(big[:0], 0xa1, 0x01), raw...))
 		c.Sig("top|" + d)
 	})
 	// as the value of every known key of an otherwise valid token
